@@ -281,19 +281,19 @@ func (s *Scenario) invC22(w *ksim.World, id string) *ksim.Fail {
 		m    map[clienttypes.Height][]byte
 	}{{"processed-time", sc.PT}, {"processed-height", sc.PH}, {"iteration-key", sc.IT}}
 	for _, f := range fams {
-		for h := range sc.CS {
+		for _, h := range sortedHeights(sc.CS) {
 			if _, ok := f.m[h]; !ok {
 				return &ksim.Fail{Key: "consensus-state-without-" + f.name, Text: fmt.Sprintf("client %s stores a consensus state at %s without its %s entry", id, h, f.name)}
 			}
 		}
-		for h := range f.m {
+		for _, h := range sortedHeights(f.m) {
 			if _, ok := sc.CS[h]; !ok {
 				return &ksim.Fail{Key: f.name + "-without-consensus-state", Text: fmt.Sprintf("client %s stores a %s entry at %s without a consensus state", id, f.name, h)}
 			}
 		}
 	}
-	for h, v := range sc.IT {
-		if !bytes.Equal(v, host.ConsensusStateKey(h)) {
+	for _, h := range sortedHeights(sc.IT) {
+		if v := sc.IT[h]; !bytes.Equal(v, host.ConsensusStateKey(h)) {
 			return &ksim.Fail{Key: "iteration-key-wrong-target", Text: fmt.Sprintf("iteration entry of %s points to %q", h, v)}
 		}
 	}
